@@ -12,7 +12,7 @@ for d in $DIRS; do
   git -C $WT checkout -q -- .
   if ! git -C $WT apply /verif/seeded/$d/patch.diff 2>/dev/null; then echo "$d: PATCH DOES NOT APPLY" | tee seeded/$d/result.txt; continue; fi
   t0=$(date +%s)
-  out=$(VERIF_JOBS=${VERIF_JOBS:-8} VERIF_REPO_SRC=$WT/src ./vcheck $P --tier ${TIER:-quick} 2>&1 | grep -E "^property=|^VIOLATION|^KNOWN" )
+  out=$(VERIF_EVIDENCE_DIR=/tmp/seedrun/ev VERIF_JOBS=${VERIF_JOBS:-8} VERIF_REPO_SRC=$WT/src ./vcheck $P --tier ${TIER:-quick} 2>&1 | grep -E "^property=|^VIOLATION|^KNOWN" )
   rc=$(echo "$out" | grep -o "exit=[0-9]*" | tail -1)
   nv=$(echo "$out" | grep -c "^VIOLATION")
   echo "$d: $rc violations=$nv wall=$(( $(date +%s) - t0 ))s :: $(echo "$out" | grep '^property=' | tail -1)" | tee seeded/$d/result.txt
